@@ -31,6 +31,12 @@ fixed("C24","457c7aa","wrong-instruction if_stmt","see wrong-instruction block")
 fixed("C06","96a72e8","panic-encode ir/module/mod.rs:attempt to subtract with overflow | after {*ImportToLocal*} @*","seen only in the debug-assertions build: after replacing an import that had been ADDED through the API with a built function, encoding panicked with 'attempt to subtract with overflow' (num_funcs - num_funcs_added; the counter was adjusted by fix 174155c without its partner). Release builds wrapped silently. Witness [AddImportFunc, ImportToLocal(new)] on fn-no-imports")
 fixed("C09","96a72e8","panic-encode ir/module/mod.rs:attempt to subtract with overflow | after {*ImportToLocal*} @*","see the C06 entry")
 
+fixed("C06","a81a104","duplicate-id func | after {*EncodeNow*} @*","an encode() in the middle of a history re-ordered the stored functions / globals / memories while their IDs stayed as they were (a consequence of fix 7322b48): a later add returned an ID another item already had, a later delete or conversion acted on another item (witness [AddImportFunc, DeleteFunc(new), EncodeNow, ...] on fn+code-refs). Encoding now leaves the lists untouched")
+fixed("C07","a81a104","duplicate-id global | after {*EncodeNow*} @*","see the C06 entry")
+fixed("C08","a81a104","duplicate-id memory | after {*EncodeNow*} @*","see the C06 entry")
+fixed("C05","e7f3f2d","reencode differs plan block-alt@*+semantic-after@*","special-mode code on an instruction inside (or on the opener of) a region replaced by a block alternate was skipped but not cleared; the next encoding emitted it (witness: semantic-after and block-alt on one block, encode(); encode())")
+fixed("C23","e7f3f2d","encode-after-report differs","pull_side_effects() followed by encode() gave other bytes than encode() alone for [semantic-after on a block, block-alt on the same block]: same cause as the C05 entry")
+
 # ---- open findings ------------------------------------------------------------------------------
 for opk,ex in [("AddImportFunc","[AddImportFunc]"),("DeleteFunc","[DeleteFunc(spare)]"),("LocalToImport","[LocalToImport(1)]"),("ImportToLocal","[ImportToLocal(0)]"),
                ("AddImportedGlobal","[AddImportedGlobal]"),("DeleteGlobal","[DeleteGlobal(spare)]"),("AddImportMem","[AddImportMem]"),("DeleteMem","[DeleteMem(spare)]")]:
